@@ -102,8 +102,20 @@ def _czt_phys(run, f, dom, p, par, sh, alpha, odx):
         for e in group:
             byaxis.setdefault(K.vec_axis(e['vec']), {})[nm] = e['vec']
     s = ffts[0]['s']
+    if not (isinstance(s, Tup) and len(s.items) == 2):
+        raise AnalysisError('%s: fft2 is not given an explicit (K, L) size' % f.qual)
+    crop = [e for e in p.events if e['kind'] == 'subscript' and isinstance(e['target'], Shaped) and e['target'].label == 'ifft2']
     for ax in (0, 1):
         N, M = dom.length('n%d' % ax), dom.length('M%d' % ax)
+        want_len = dom.func_atom('next_fast_len', [Sym(K.R_(dom, N) + K.R_(dom, M) - 1)])
+        Kax = s.items[ax]
+        run.check(dom.rat(Kax) is not None and K.R_(dom, Kax) == want_len.r, 'x', f.qual, 'czt fft size axis %d' % ax,
+                  'convolution length of axis %d is next_fast_len(n+M-1) of that axis' % ax,
+                  'chirp-Z convolution length of axis %d is %r, expected next_fast_len(n%d + M%d - 1): a shorter workspace wraps around' % (ax, Kax, ax, ax), f.loc(ffts[0]['node']))
+        if len(crop) == 1 and isinstance(crop[0]['index'], Tup) and len(crop[0]['index'].items) == 2:
+            sl = crop[0]['index'].items[ax]
+            okc = isinstance(sl, Slice) and isinstance(sl.lo, Const) and sl.lo.v is None and dom.rat(sl.hi) is not None and K.R_(dom, sl.hi) == K.R_(dom, M)
+            run.check(okc, 'x', f.qual, 'czt crop axis %d' % ax, 'crop [:M%d] on axis %d' % (ax, ax), 'crop of axis %d is %r, expected [:M%d]' % (ax, sl, ax), f.loc(crop[0]['node']))
         taken = sh[1] if ax == 0 else sh[0]
         shiftv = Sym(Rat(R.atom('sy' if ax == 0 else 'sx')) / odx) if taken else Const(0)
         d = byaxis.get(ax, {})
